@@ -48,6 +48,11 @@ fn tape_json(ctx: &Ctx) -> Value {
         let label = ctx.tape_labels.get(i).copied().unwrap_or("?");
         v.push(json!([label, ctx.tape_vals[i]]));
     }
+    // transport-level stream: third element 1
+    for i in 0..ctx.net_vals.len() {
+        let label = ctx.net_labels.get(i).copied().unwrap_or("?");
+        v.push(json!([label, ctx.net_vals[i], 1]));
+    }
     Value::Array(v)
 }
 
@@ -119,7 +124,7 @@ fn cmd_run(args: &[String], reg: &[ScenarioDef]) -> i32 {
         steps += ctx.steps;
         shapes.insert(ctx.shape);
         if want_digests {
-            digests.push(ctx.digest ^ ctx.shape.rotate_left(1));
+            digests.push(ctx.digest);
         }
         for (k, v) in ctx.faults.iter() {
             *faults.entry(k.to_string()).or_insert(0) += v;
@@ -137,7 +142,7 @@ fn cmd_run(args: &[String], reg: &[ScenarioDef]) -> i32 {
                     keys.insert(ctx.key);
                 }
                 if ctx.log_enabled && samples.len() < samples_wanted && ctx.nontrivial {
-                    samples.push(json!({"case": case, "tape_len": ctx.tape_vals.len(), "steps": ctx.steps, "log": log_json(&ctx, 60)}));
+                    samples.push(json!({"case": case, "tape_len": ctx.tape_vals.len(), "steps": ctx.steps, "log": log_json(&ctx, arg(args, "--log-lines").unwrap_or("60").parse().unwrap())}));
                 }
             }
             Outcome::Violation(v) => {
@@ -183,15 +188,26 @@ fn cmd_run(args: &[String], reg: &[ScenarioDef]) -> i32 {
     0
 }
 
+/// both streams in one vector: [main..., MARK, net...] (the marker cannot be a tape value of interest to minimise)
+const MARK: u64 = u64::MAX;
+
 fn load_tape(path: &str) -> (String, Vec<u64>, Value) {
     let v: Value = serde_json::from_slice(&std::fs::read(path).expect("read replay file")).expect("json");
     let scenario = v["scenario"].as_str().expect("scenario").to_string();
-    let tape: Vec<u64> = v["tape"].as_array().expect("tape").iter().map(|e| e[1].as_u64().unwrap()).collect();
+    let entries = v["tape"].as_array().expect("tape");
+    let mut tape: Vec<u64> = entries.iter().filter(|e| e.get(2).and_then(|x| x.as_u64()).unwrap_or(0) == 0).map(|e| e[1].as_u64().unwrap()).collect();
+    let net: Vec<u64> = entries.iter().filter(|e| e.get(2).and_then(|x| x.as_u64()).unwrap_or(0) == 1).map(|e| e[1].as_u64().unwrap()).collect();
+    tape.push(MARK);
+    tape.extend(net);
     (scenario, tape, v)
 }
 
 fn exec_tape(def: &ScenarioDef, tape: &[u64], case: u64, thorough: bool, log: bool) -> (Outcome, Rc<RefCell<Ctx>>) {
-    let mut ctx = Ctx::replay(tape.to_vec());
+    let (main, net): (Vec<u64>, Vec<u64>) = match tape.iter().position(|x| *x == MARK) {
+        Some(p) => (tape[..p].to_vec(), tape[p + 1..].to_vec()),
+        None => (tape.to_vec(), Vec::new()),
+    };
+    let mut ctx = Ctx::replay2(main, net);
     ctx.log_enabled = log;
     let r = run_case(def, ctx, case, thorough);
     (r.outcome, r.ctx)
@@ -272,19 +288,32 @@ fn cmd_minimize(args: &[String], reg: &[ScenarioDef]) -> i32 {
         let (o, _) = exec_tape(def, cand, case, thorough, false);
         class_of(&o).as_deref() == Some(target.as_str())
     };
-    // 1. cut the suffix by bisection (an exhausted tape yields 0 = benign)
+    // 0. the whole transport-level stream benign?
+    if let Some(p) = best.iter().position(|x| *x == MARK) {
+        let cand = best[..=p].to_vec();
+        if test(&cand, &mut execs) {
+            best = cand;
+        }
+    }
+    // 1. cut the suffix of the main stream by bisection (an exhausted tape yields 0 = benign)
+    let mark = best.iter().position(|x| *x == MARK).unwrap_or(best.len());
+    let tail: Vec<u64> = best[mark..].to_vec();
     let mut lo = 0usize;
-    let mut hi = best.len();
+    let mut hi = mark;
     while lo < hi && execs < budget {
         let mid = (lo + hi) / 2;
-        if test(&best[..mid], &mut execs) {
+        let cand: Vec<u64> = best[..mid].iter().cloned().chain(tail.iter().cloned()).collect();
+        if test(&cand, &mut execs) {
             hi = mid;
         } else {
             lo = mid + 1;
         }
     }
-    if hi < best.len() && test(&best[..hi], &mut execs) {
-        best.truncate(hi);
+    if hi < mark {
+        let cand: Vec<u64> = best[..hi].iter().cloned().chain(tail.iter().cloned()).collect();
+        if test(&cand, &mut execs) {
+            best = cand;
+        }
     }
     // 2. zero blocks, halving the block size
     let mut block = (best.len() / 2).max(1);
@@ -292,10 +321,12 @@ fn cmd_minimize(args: &[String], reg: &[ScenarioDef]) -> i32 {
         let mut start = 0;
         while start < best.len() && execs < budget {
             let end = (start + block).min(best.len());
-            if best[start..end].iter().any(|x| *x != 0) {
+            if best[start..end].iter().any(|x| *x != 0 && *x != MARK) {
                 let mut cand = best.clone();
                 for x in &mut cand[start..end] {
-                    *x = 0;
+                    if *x != MARK {
+                        *x = 0;
+                    }
                 }
                 if test(&cand, &mut execs) {
                     best = cand;
@@ -314,7 +345,7 @@ fn cmd_minimize(args: &[String], reg: &[ScenarioDef]) -> i32 {
             break;
         }
         let mut guard = 0;
-        while best[i] > 1 && execs < budget && guard < 8 {
+        while best[i] > 1 && best[i] != MARK && execs < budget && guard < 8 {
             guard += 1;
             let mut cand = best.clone();
             cand[i] = best[i] / 2;
@@ -326,6 +357,9 @@ fn cmd_minimize(args: &[String], reg: &[ScenarioDef]) -> i32 {
         }
     }
     while best.last() == Some(&0) {
+        best.pop();
+    }
+    if best.last() == Some(&MARK) {
         best.pop();
     }
     let (o, ctx) = exec_tape(def, &best, case, thorough, true);
